@@ -247,12 +247,20 @@ class Disk:
                     raise
                 continue
 
-            with writer:
-                size = 0
-                for chunk in iterator:
-                    size += len(chunk)
-                    writer.write(chunk)
-                return size
+            try:
+                with writer:
+                    size = 0
+                    for chunk in iterator:
+                        size += len(chunk)
+                        writer.write(chunk)
+                    return size
+            except BaseException:
+                # Do not leave a partial file behind.
+                with cl.suppress(OSError):
+                    os.remove(full_path)
+                with cl.suppress(OSError):
+                    os.removedirs(full_dir)
+                raise
 
     def fetch(self, mode, filename, value, read):
         """Convert fields `mode`, `filename`, and `value` from Cache table to
@@ -741,6 +749,8 @@ class Cache:
                 assert self._txn_id == tid
                 self._txn_id = None
                 sql('ROLLBACK')
+                if filename is not None:
+                    _disk_remove(filename)
             raise
         else:
             if begin:
